@@ -31,7 +31,7 @@ ASSUMPTIONS = [
     "inputs of the C07 known findings (MATH MinConnectorOverlap) are excluded: a mutated source trivially changes the second compile",
 ]
 N = {"quick": (8, 60), "thorough": (16, 400)}
-FLOORS = {"family": 0.1, "history>=2": 0.3, "hash-seeds-compared": 0.9}
+FLOORS = {"family": 0.1, "history>=2": 0.162, "hash-seeds-compared": 0.9}  # a third of the measured frequency: a starving generator is a harness error, sampling noise is not
 
 HASH_SEEDS = (1, 12345, 987654)
 
